@@ -394,6 +394,20 @@ def scenario_requires(ctx, U, hostile):
                                      'vendor/credentials.lua': b'marker("vendor/credentials.lua")\n', 'credentials.lua': b'marker("credentials.lua")\n'},
          'ws/game/main.lua', '?.lua;' + os.path.join(U, 'vendor', 'p8libs', '?.lua'), ['ws/game', 'vendor/p8libs'],
          ['vendor/credentials.lua', 'credentials.lua']),
+        # a load path entry without a pattern character names nothing but itself; the directory next to it whose name continues it
+        # is not a load path directory
+        ('entry_without_pattern', {'ws/game/main.lua': b's=require("-private/secret")\nt=require("s/inner")\n', 'vendor/p8libs/net.lua': b'n=1\n',
+                                   'vendor/p8libs-private/secret.lua': b'marker("vendor/p8libs-private/secret.lua")\n',
+                                   'vendor/p8libss/inner.lua': b'marker("vendor/p8libss/inner.lua")\n'},
+         'ws/game/main.lua', '?;?.lua;' + os.path.join(U, 'vendor', 'p8libs'), ['ws/game', 'vendor/p8libs'],
+         ['vendor/p8libs-private/secret.lua', 'vendor/p8libss/inner.lua']),
+        # what a program assigns to `package.path` is its own business at run time: the build's load path is the user's
+        ('program_assigns_package_path', {'ws/game/main.lua': b'package.path = "lib/?.lua;' + os.path.join(U, 'outside').encode() + b'/?.lua"\n'
+                                                              b'm=require("only_out")\n'},
+         'ws/game/main.lua', None, ['ws/game'], ['outside/only_out.lua']),
+        ('program_extends_package_path', {'ws/game/main.lua': b'package.path = package.path .. ";' + os.path.join(U, 'outside').encode() + b'/?.lua"\n'
+                                                              b'm=require("only_out")\n', 'ws/game/lib/a.lua': b'a=1\n'},
+         'ws/game/main.lua', '?.lua;lib/?.lua', ['ws/game'], ['outside/only_out.lua']),
     )
     for name, files, main_rel, lua_path, roots_rel, canaries in layouts:
         made = []
@@ -406,12 +420,12 @@ def scenario_requires(ctx, U, hostile):
         main = os.path.join(U, main_rel)
         out = os.path.join(os.path.dirname(main), 'out_scn.p8')
         roots = [os.path.join(U, r) for r in roots_rel]
-        case = {'kind': 'scenario', 'string': name, 'load_path': lua_path.replace(U, '$U'), 'hostile': hostile}
+        case = {'kind': 'scenario', 'string': name, 'load_path': (lua_path or '(default)').replace(U, '$U'), 'hostile': hostile}
         ctx.case(('scenario', name, hostile), nontrivial=True)
         try:
             with fsmon.Watch(U, roots, hostile) as w:
                 try:
-                    tool.main([ambient.vflag(), 'build', out, '--lua', main, '--lua-path', lua_path])
+                    tool.main([ambient.vflag(), 'build', out, '--lua', main] + (['--lua-path', lua_path] if lua_path is not None else []))
                 except BaseException:
                     pass
         finally:
@@ -430,6 +444,54 @@ def scenario_requires(ctx, U, hostile):
                           'path %s' % (name, case['load_path'], 'hostile' if hostile else 'real', sorted({os.path.relpath(p, U) for p, m in outp}),
                                        roots_rel), case)
             return
+
+
+def carts_folder_lookup(ctx, U, hostile):
+    """A cart that lives in the carts folder, named by its bare file name from another working directory that holds files of the names
+    the cart includes.  Whether or not such a name is found, nothing of the working directory is the cart's."""
+    from pico8.game import file as p8file
+    from pico8 import tool
+    home = os.path.join(U, 'home')
+    cartsdir = os.path.join(home, '.lexaloffle', 'pico-8', 'carts')
+    regions, _ = carts.random_regions(__import__('random').Random(2), 'zero')
+    for sub, name in (('', 'lookup_cart.p8'), ('game', 'lookup_cart2.p8')):
+        cart = os.path.join(cartsdir, sub, name)
+        with open(cart, 'wb') as fh:
+            fh.write(rc.write_p8(regions, b'a=1\n#include x.lua\n#include sub/x.lua\nb=2\n', version=8))
+        old_home = os.environ.get('HOME')
+        old_cwd = os.getcwd()
+        try:
+            for cwd in ('x', 'root', 'outside', 'home'):
+                for typed in (name, os.path.join(sub, name) if sub else './' + name):
+                    for entry in ('library', 'listlua', 'stats'):
+                        os.environ['HOME'] = home
+                        os.chdir(os.path.join(U, cwd))
+                        case = {'kind': 'carts_folder_lookup', 'string': typed, 'cwd': cwd, 'entry': entry, 'hostile': hostile}
+                        ctx.case(('carts_folder_lookup', typed, cwd, entry, hostile), nontrivial=True)
+                        with fsmon.Watch(U, [cartsdir], hostile) as w:
+                            try:
+                                if entry == 'library':
+                                    p8file.from_file(typed)
+                                else:
+                                    tool.main([ambient.vflag(), entry, typed])
+                            except BaseException:
+                                pass
+                        ctx.monitor('carts_folder_lookups')
+                        ctx.feature('cart_of_the_carts_folder_named_bare_from_elsewhere')
+                        # (the typed name itself may be probed where it was typed: that is the name the user gave)
+                        outp = [(p_, m) for p_, m in w.outside() if os.path.basename(p_) != name]
+                        if outp:
+                            ctx.violation('cart name %r typed in %s (HOME has a carts folder holding such a cart; %s, %s fs): opened %s, outside the carts '
+                                          'folder' % (typed, cwd, entry, 'hostile' if hostile else 'real', sorted({os.path.relpath(p_, U) for p_, m in outp})), case)
+                            return
+        finally:
+            os.chdir(old_cwd)
+            if old_home is None:
+                os.environ.pop('HOME', None)
+            else:
+                os.environ['HOME'] = old_home
+            if os.path.exists(cart):
+                os.remove(cart)
 
 
 def poison(ctx, U):
@@ -547,6 +609,7 @@ def run_shard(spec, ctx):
                 # directories of a nested require() are those of the requiring file
                 nested_require(ctx, U, hostile)
                 scenario_requires(ctx, U, hostile)
+                carts_folder_lookup(ctx, U, hostile)
             ctx.feature('links_done')
             return
         if spec['kind'] == 'names':
@@ -645,7 +708,9 @@ def run_shard(spec, ctx):
 def replay(case, ctx):
     U = make_universe()
     try:
-        if case['kind'] == 'scenario':
+        if case['kind'] == 'carts_folder_lookup':
+            carts_folder_lookup(ctx, U, case['hostile'])
+        elif case['kind'] == 'scenario':
             scenario_requires(ctx, U, case['hostile'])
             return
         if case['kind'] == 'include':
@@ -667,7 +732,7 @@ def gates(m, tier):
     N = 3 if tier == 'quick' else 4
     if f.get('strings_enumerated', 0) != len(strings(N)):
         missed.append('strings enumerated %d of %d' % (f.get('strings_enumerated', 0), len(strings(N))))
-    for k in ('cart_loaded_from_stream_without_name', 'cart_under_cwd_relative_carts_folder', 'strings_with_tilde', 'nested_require_from_subdirectory', 'main_named_bare', 'main_named_relative', 'cart_named_bare', 'cart_named_relative', 'links_done', 'strings_through_directory_links', 'strings_with_backslash_separators', 'strings_with_undecodable_bytes', 'sequences_done', 'failed_load_before_case', 'failed_build_before_case', 'include_cfg:subdir', 'absolute_paths_done', 'names_done', 'cart_directories_with_special_characters', 'carts_folder_lookalikes', 'main_file_inside_carts_folder_project', 'strings_with_backslash_digit_values', 'strings_with_blanks_around_a_path', 'output_cart_in_another_directory', 'file_only_in_lower_case_twin_directory', 'require_scenario:ancestor_pattern', 'require_scenario:ancestor_pattern_two', 'require_scenario:package_outside_project', 'hostile', 'real_fs', 'include_cfg:plain', 'include_cfg:carts', 'include_cfg:carts2', 'include_rejected',
+    for k in ('cart_loaded_from_stream_without_name', 'cart_under_cwd_relative_carts_folder', 'strings_with_tilde', 'nested_require_from_subdirectory', 'main_named_bare', 'main_named_relative', 'cart_named_bare', 'cart_named_relative', 'links_done', 'strings_through_directory_links', 'strings_with_backslash_separators', 'strings_with_undecodable_bytes', 'sequences_done', 'failed_load_before_case', 'failed_build_before_case', 'include_cfg:subdir', 'absolute_paths_done', 'names_done', 'cart_directories_with_special_characters', 'carts_folder_lookalikes', 'main_file_inside_carts_folder_project', 'strings_with_backslash_digit_values', 'strings_with_blanks_around_a_path', 'output_cart_in_another_directory', 'file_only_in_lower_case_twin_directory', 'require_scenario:ancestor_pattern', 'require_scenario:ancestor_pattern_two', 'require_scenario:package_outside_project', 'require_scenario:entry_without_pattern', 'require_scenario:program_assigns_package_path', 'require_scenario:program_extends_package_path', 'cart_of_the_carts_folder_named_bare_from_elsewhere', 'hostile', 'real_fs', 'include_cfg:plain', 'include_cfg:carts', 'include_cfg:carts2', 'include_rejected',
               'include_loaded', 'require_rejected', 'require_built') + tuple('load_path:' + l for l in LOAD_PATHS):
         if f.get(k, 0) < 1:
             missed.append('%s never seen' % k)
